@@ -23,6 +23,9 @@ CONSTANTS
   Recipients = {}
   MaxSteps = 0
   DonateAlso = {}
+  Odd = {}
+  InitOdd = 0
+  WrongKind = FALSE
   WithUni = TRUE
 INVARIANTS
   Monitor
